@@ -210,9 +210,11 @@ def payload_docs(r, n):
                 # directives of every type with options of every name (also ones the directive does not know) carrying payloads
                 yield gen_docs.directive_doc(r, r.choice(["fenced", "rst"]), [pay, "left" + pay, "100" + pay, url, pay + " c1", "tip" + pay, "1" + pay])
                 continue
-            opt = r.choice(["class", "figclass", "figwidth", "width", "height", "alt", "align", "target", "max-level", "min-level", "encoding", "name", "title", "id", "style", "type"])
-            # a value that begins like a valid one (validated options are checked by prefix-anchored patterns)
-            optval = r.choice(["", "", "left", "center", "right", "Left", "100", "50%", "10px", "1", "3", "utf-8"]) + pay
+            opt = r.choice(["class", "figclass", "figwidth", "width", "height", "alt", "align", "target", "max-level", "min-level", "encoding", "name", "title", "id", "style", "type",
+                            "align", "align", "width", "height", "figwidth"])
+            # a value that begins like a valid one (validated options are checked by prefix-anchored patterns): mostly of the kind the option takes
+            kind = ["left", "center", "right", "Left", "top", "middle", "bottom", "CENTER"] if opt == "align" else ["100", "50%", "10px", "1", "3", "1.5"] if opt in ("width", "height", "figwidth") else None
+            optval = (r.choice(kind) if kind and r.random() < 0.8 else r.choice(["", "", "left", "center", "right", "Left", "100", "50%", "10px", "1", "3", "utf-8"])) + pay
             if r.random() < 0.5:
                 yield r.choice([
                     "```{image} %s\n:%s: %s\n```\n" % (r.choice(["a.png", url]), opt, optval),
